@@ -24,7 +24,7 @@ logging.getLogger("asyncio").addHandler(logging.NullHandler())
 logging.getLogger("asyncio").propagate = False
 
 HAP_TYPE = {"ip": "_hap._tcp.local.", "coap": "_hap._udp.local."}
-ABSENT, BAD, ODD = -1, -2, -3
+ABSENT, BAD, ODD, NOVAL, EMPTY = -1, -2, -3, -4, -5
 NUM_KEYS = {"c": "c#", "s": "s#", "sf": "sf", "ff": "ff", "ci": "ci"}
 IDS = {"x": "c1:9a:00:00:00:0a", "y": "c1:9a:00:00:00:0b"}
 
@@ -359,7 +359,12 @@ class World:
         up = cls["kc"] == "upper"
         raw = cls.get("_raw", {})
         props = {}
-        if cls["idc"] != "absent":
+        # a value of None is a TXT entry that is the bare key without "=value"; b"" is the entry "key="
+        if cls["idc"] == "noval":
+            props[b"ID" if up else b"id"] = None
+        elif cls["idc"] == "empty":
+            props[b"ID" if up else b"id"] = b""
+        elif cls["idc"] != "absent":
             v = IDS[idl].upper() if cls["idc"] == "upper" else IDS[idl]
             props[b"ID" if up else b"id"] = v.encode()
         props[b"MD" if up else b"md"] = b"unit"
@@ -367,8 +372,20 @@ class World:
             v = cls[f]
             if v == ABSENT:
                 continue
+            kb = (key.upper() if up else key).encode()
+            if v == NOVAL:
+                props[kb] = None
+                continue
+            if v == EMPTY:
+                props[kb] = b""
+                continue
             val = raw.get(f, "abc" if v == BAD else str(v))
-            props[(key.upper() if up else key).encode()] = val.encode("utf-8", "surrogateescape") if isinstance(val, str) else val
+            props[kb] = val.encode("utf-8", "surrogateescape") if isinstance(val, str) else val
+        xk = cls.get("xk", "none")
+        if xk != "none":
+            which, how = xk.split("-")
+            key = {"md": "md", "pv": "pv", "uk": "xx"}[which]
+            props[(key.upper() if up else key).encode()] = {"noval": None, "empty": b"", "value": b"1"}[how]
         packed = []
         for k, a in enumerate(cls["addrs"], 1):
             ip = ipaddress.ip_address(addr_of(a, k, cls.get("av", 0)))
